@@ -180,7 +180,12 @@ BASIS = [
     ("ok", {}),
     ("start", {}),
     ("[MSG:Reset to continue]", {}),
+    # reports with one field that cannot be read (line noise, a three-member FS field): nothing is demanded about the letters they
+    # mention ("?"), but the next well-formed report counts in full
+    ("X:4.00 Y:5.0.0 Z:6.00 E:0.00 Count X:320 Y:400 Z:2400", {"?": "XYZE"}),
+    ("<Idle|MPos:1.000,2.000,3.000|FS:500,8000,7990>", {"?": "XYZFS"}),
 ]
+UNKNOWN = object()
 
 
 def _work_hist(idx):
@@ -191,15 +196,20 @@ def _work_hist(idx):
     for i in idx:
         text, exp = BASIS[i]
         cb(text)
-        model.update(exp)
+        if "?" in exp:
+            model.update({k: UNKNOWN for k in exp["?"]})
+        else:
+            model.update(exp)
         for k in LETTERS:
             got, want = w.get_parameter(k), model.get(k)
+            if want is UNKNOWN:
+                continue
             if (want is None) != (got is None) or (want is not None and float(got) != want):
                 out.append(("history:" + ("not-parsed" if got is None else "wrong-value"),
                             f"after reports {[BASIS[j][0] for j in idx]}: {k} = {got!r}, expected {want}",
                             {"reports": [BASIS[j][0] for j in idx]}))
                 return out, states
-        states.append(tuple(sorted(model.items())))
+        states.append(tuple(sorted((k, (v if v is not UNKNOWN else "?")) for k, v in model.items())))
     return out, states
 
 
